@@ -7,17 +7,17 @@
 #include "nmtools/array/view/where.hpp"
 // expand: run-time axis, spacing and fill value
 #define EXPAND(D) KERNEL int K(k_expand##D)(ARGS_IN, int axis, size_t spacing, unsigned fill, ARGS_OUT){ MK(D); return OBSV(view::expand(a, axis, spacing, fill)); }
-FOR_DIMS(EXPAND)
+FOR_DIMS4(EXPAND)
 // resize to a run-time destination shape of the same dimension
 #define RESIZE(D) KERNEL int K(k_resize##D)(ARGS_IN, const size_t* dst, ARGS_OUT){ MK(D); return OBSV(view::resize(a, mk_arr<size_t,D>(dst))); }
-FOR_DIMS(RESIZE)
+FOR_DIMS4(RESIZE)
 // compress: run-time condition list of 1..4 entries, run-time axis / axis=None
 #define COMPRESS(D) KERNEL int K(k_compress##D)(ARGS_IN, const int* cond, size_t nc, int axis, ARGS_OUT){ MK(D); return OBSV(view::compress(mk_sv<int,4>(cond,nc), a, axis)); } \
   KERNEL int K(k_compress_flat##D)(ARGS_IN, const int* cond, size_t nc, ARGS_OUT){ MK(D); return OBSV(view::compress(mk_sv<int,4>(cond,nc), a, nm::None)); }
-FOR_DIMS(COMPRESS)
+FOR_DIMS4(COMPRESS)
 #define DIAGFLAT(D) KERNEL int K(k_diagflat##D)(ARGS_IN, int k, ARGS_OUT){ MK(D); return OBSV(view::diagflat(a, k)); }
-FOR_DIMS(DIAGFLAT)
+FOR_DIMS4(DIAGFLAT)
 // where(condition, x, y) on three arrays of one shape
 #define WHERE(D) KERNEL int K(k_where##D)(const size_t* shape, const unsigned* cond, const unsigned* x, const unsigned* y, ARGS_OUT){ \
   src_t<D> c, a, b; if (!mk##D(c,shape,cond) || !mk##D(a,shape,x) || !mk##D(b,shape,y)) return -1; return OBSV(view::where(c, a, b)); }
-FOR_DIMS(WHERE)
+FOR_DIMS4(WHERE)
